@@ -145,14 +145,25 @@ func setHashEnvelopeProtectedHeader(base ProtectedHeader, payload *HashEnvelopeP
 	if header == nil {
 		header = make(ProtectedHeader)
 	}
-	header[HeaderLabelPayloadHashAlgorithm] = payload.HashAlgorithm
+	setHashEnvelopeParameter(header, HeaderLabelPayloadHashAlgorithm, payload.HashAlgorithm)
 	if payload.PreimageContentType != nil {
-		header[HeaderLabelPayloadPreimageContentType] = payload.PreimageContentType
+		setHashEnvelopeParameter(header, HeaderLabelPayloadPreimageContentType, payload.PreimageContentType)
 	}
 	if payload.Location != "" {
-		header[HeaderLabelPayloadLocation] = payload.Location
+		setHashEnvelopeParameter(header, HeaderLabelPayloadLocation, payload.Location)
 	}
 	return header
+}
+
+// setHashEnvelopeParameter replaces the parameter with the given label,
+// whichever Go integer type spells that label in the base header.
+func setHashEnvelopeParameter(header ProtectedHeader, label int64, value any) {
+	for l := range header {
+		if n, ok := normalizeLabel(l); ok && n == any(label) {
+			delete(header, l)
+		}
+	}
+	header[label] = value
 }
 
 // validateHashEnvelopeHeaders validates the headers of a Hash_Envelope object.
